@@ -197,3 +197,16 @@ impl std::io::Write for Plain<'_> {
         Ok(())
     }
 }
+
+/// like `Plain`, but accepts at most `0` bytes per call (a pipe or socket that takes what fits)
+pub struct Short<'a>(pub &'a mut Vec<u8>, pub usize);
+impl std::io::Write for Short<'_> {
+    fn write(&mut self, b: &[u8]) -> std::io::Result<usize> {
+        let k = b.len().min(self.1.max(1));
+        self.0.extend_from_slice(&b[..k]);
+        Ok(k)
+    }
+    fn flush(&mut self) -> std::io::Result<()> {
+        Ok(())
+    }
+}
